@@ -339,6 +339,28 @@ func checkPureRoundTrip(c *corr.Ctx, parts URLParts, n int) {
 			}
 		}
 	}
+	// the GStreamer layout foreign clients use (control after the path, query last): only decidable for the
+	// server when the query itself carries no "/trackID=" that stringsReverseIndex can see
+	if gortsplib.VerifStringsReverseIndex(u.RawQuery, "/trackID=") < 0 {
+		for i := 0; i < n; i++ {
+			gu := &base.URL{Scheme: su.Scheme, Host: su.Host, Path: su.Path + "/" + control(i), RawQuery: su.RawQuery}
+			gsu, err := base.ParseURL(gu.String())
+			if err != nil {
+				viol("URL analysis on the server (GStreamer layout)", "pure-gst-unparsable", fmt.Sprintf("%s: server cannot parse %q", s, gu.String()))
+				continue
+			}
+			sp, sq, tid, err := gortsplib.VerifGetPathAndQueryAndTrackID(gsu)
+			if err != nil || sp != u.Path || sq != u.RawQuery || tid != strconv.Itoa(i) {
+				viol("URL analysis on the server (GStreamer layout)", "pure-gst-setup-split", fmt.Sprintf("%s: SETUP %q gives path=%q query=%q trackID=%q err=%v", s, gu.String(), sp, sq, tid, err))
+			}
+		}
+		gu := &base.URL{Scheme: su.Scheme, Host: su.Host, Path: su.Path + "/", RawQuery: su.RawQuery}
+		if gsu, err := base.ParseURL(gu.String()); err == nil {
+			if pp, pq := gortsplib.VerifGetPathAndQuery(gsu, false); pp != u.Path || pq != u.RawQuery {
+				viol("URL analysis on the server (GStreamer layout)", "pure-gst-play-pathquery", fmt.Sprintf("%s: PLAY %q gives path=%q query=%q", s, gu.String(), pp, pq))
+			}
+		}
+	}
 	// PLAY / PAUSE / TEARDOWN / GET_PARAMETER use the base URL
 	tp := requestTarget(bu)
 	noCreds("PLAY", tp)
@@ -408,6 +430,13 @@ func runPure(c *corr.Ctx, g gen) {
 			k := g.r.IntN(13)
 			pureURLOps(c, g, fmt.Sprintf("gen-%d-cb", i), s+"/")
 			pureURLOps(c, g, fmt.Sprintf("gen-%d-setup", i), s+"/"+control(k))
+			// GStreamer layouts: control / slash after the path, query last
+			gp := parts
+			gp.Path += "/" + control(k)
+			pureURLOps(c, g, fmt.Sprintf("gen-%d-gst-setup", i), gp.String())
+			gp = parts
+			gp.Path += "/"
+			pureURLOps(c, g, fmt.Sprintf("gen-%d-gst-play", i), gp.String())
 		}
 	}
 	// (2) malformed stream
